@@ -96,6 +96,16 @@ type GenAccount struct {
 	VestEnd     int64
 	OrigVesting sdk.Coins
 	Sequence    uint64
+	// RawAddr, when set, is used instead of Addr: an account address of any length (e.g. 32 bytes, like module-derived or
+	// interchain accounts have). Base accounts only.
+	RawAddr []byte
+}
+
+func (ga GenAccount) addrBytes() []byte {
+	if len(ga.RawAddr) > 0 {
+		return ga.RawAddr
+	}
+	return ga.Addr.Bytes()
 }
 
 // Config of a generated chain.
@@ -394,7 +404,7 @@ func (c *Chain) buildGenesis() *abci.RequestInitChain {
 	supply := sdk.NewCoins()
 	accNum := uint64(0)
 	addAcc := func(ga GenAccount) {
-		base := authtypes.NewBaseAccount(sdk.AccAddress(ga.Addr.Bytes()), nil, accNum, ga.Sequence)
+		base := authtypes.NewBaseAccount(sdk.AccAddress(ga.addrBytes()), nil, accNum, ga.Sequence)
 		accNum++
 		var acc authtypes.GenesisAccount = base
 		ov := ga.OrigVesting
@@ -456,7 +466,7 @@ func (c *Chain) buildGenesis() *abci.RequestInitChain {
 		}
 		genAccs = append(genAccs, acc)
 		if !ga.Coins.IsZero() {
-			balances = append(balances, banktypes.Balance{Address: sdk.AccAddress(ga.Addr.Bytes()).String(), Coins: ga.Coins.Sort()})
+			balances = append(balances, banktypes.Balance{Address: sdk.AccAddress(ga.addrBytes()).String(), Coins: ga.Coins.Sort()})
 			supply = supply.Add(ga.Coins...)
 		}
 	}
